@@ -600,6 +600,69 @@ func (e *Exec) callByContract(ct *Contract, callee *ssa.Function, args []Val, si
 		}
 		e.vc.Assume(e.g, t)
 	}
+	// 1a. locks the callee takes itself: not held by the caller; the guarded state is arbitrary at the callee's
+	// acquisition, which is also the reference point of atlock() in its postconditions
+	acquired := false
+	for _, aq := range ct.Acquires {
+		var lp *Ptr
+		func() {
+			defer func() { recover() }()
+			lp = env.lockPtr(aq.E)
+		}()
+		gi := (*GuardInfo)(nil)
+		if lp != nil {
+			gi = e.guardOfLock(lp)
+		}
+		if lp == nil || gi == nil {
+			if !e.silent {
+				o := e.vc.Oblige("lock", "acquires:"+name, "cannot resolve the lock of the acquires clause "+aq.Text, e.P.posString(instrPos(in)), e.g, False, nil)
+				o.Status = "unknown"
+			}
+			continue
+		}
+		k := lockKey(lp)
+		cur := e.heldGet(k, gi)
+		if e.root.heldInfo == nil {
+			e.root.held0 = map[string]*Term{}
+			e.root.heldInfo = map[string]*GuardInfo{}
+		}
+		e.root.heldInfo[k] = gi
+		e.check("lock", Eq(cur, IntLit(0)), "lock "+gi.TypeName+"."+gi.Field+" is not held when calling "+name+", which acquires it")
+		e.havocGuarded(lp, gi)
+		acquired = true
+	}
+	if acquired {
+		snap := e.st.clone()
+		snap.atlock = nil
+		e.st.atlock = snap
+		pre = e.st
+		env = e.callEnv(ct, callee, args, sig, pre, nil)
+		env.calleeNows = &calleeNows
+	}
+	// 1b. recursion: the function's variant decreases and is bounded below
+	if callee != nil && callee == e.fn && e.depth == 0 && !e.silent {
+		if len(ct.Decreases) == 0 {
+			o := e.vc.Oblige("term", "recursion", "recursive call without a decreases clause", e.P.posString(instrPos(in)), e.g, False, nil)
+			o.Status = "unknown"
+		}
+		for k, d := range ct.Decreases {
+			mNew, err1 := env.EvalTerm(d.E)
+			mOld, err2 := e.paramEnv(e.st, nil).EvalTerm(d.E)
+			if err1 != nil || err2 != nil {
+				o := e.vc.Oblige("term", fmt.Sprintf("recursion[%d]", k), "cannot evaluate variant "+d.Text, e.P.posString(instrPos(in)), e.g, False, nil)
+				o.Status = "unknown"
+				continue
+			}
+			a, b := mNew, mOld
+			if a.Sort != BV(64) || b.Sort != BV(64) {
+				o := e.vc.Oblige("term", fmt.Sprintf("recursion[%d]", k), "variant is not an int: "+d.Text, e.P.posString(instrPos(in)), e.g, False, nil)
+				o.Status = "unknown"
+				continue
+			}
+			e.vc.Oblige("term", fmt.Sprintf("recursion[%d]", k), "variant "+d.Text+" decreases at the recursive call and is non-negative @ "+e.P.posString(instrPos(in)),
+				e.P.posString(instrPos(in)), e.g, And(SLt(a, b), bvCmp("bvsle", BVLitI(0, 64), a)), e.root.inputs)
+		}
+	}
 	// 2. frame
 	e.st = pre.clone()
 	if ct.HasFrame() {
@@ -629,6 +692,9 @@ func (e *Exec) callByContract(ct *Contract, callee *ssa.Function, args []Val, si
 	vals := make([]Val, sig.Results().Len())
 	post := e.callEnv(ct, callee, args, sig, e.st, pre)
 	post.calleeNows = &calleeNows
+	if acquired {
+		post.atlock = pre
+	}
 	for i := range vals {
 		vals[i] = e.havocVal("r."+trunc(name, 20), sig.Results().At(i).Type(), nil)
 		if i < len(ct.Results) {
@@ -646,6 +712,25 @@ func (e *Exec) callByContract(ct *Contract, callee *ssa.Function, args []Val, si
 		}
 		e.vc.Assume(e.g, t)
 		nAssumed++
+	}
+	// 4b. ghost assignments made by the callee at return
+	for _, gs := range ct.Sets {
+		gv := e.P.Ghosts[gs.Name]
+		if gv == nil {
+			e.vc.Note("sets clause of %s names an undeclared ghost %s", name, gs.Name)
+			continue
+		}
+		t, err := post.EvalTerm(gs.Cl.E)
+		if err != nil || t.Sort != gv.Sort {
+			e.vc.Note("sets clause of %s not usable: %s (%v)", name, gs.Cl.Text, err)
+			hn := "GH.u." + gs.Name
+			e.heap0(hn, gv.Sort)
+			e.st.heaps[hn] = e.vc.Fresh(hn, gv.Sort)
+			continue
+		}
+		hn := "GH.u." + gs.Name
+		e.heap0(hn, gv.Sort)
+		e.heapSet(hn, t)
 	}
 	if nAssumed > 0 && !e.silent && e.depth == 0 && !e.g.IsFalse() {
 		// vacuity guard: the assumed postconditions must not contradict what is known at this call
